@@ -1,7 +1,9 @@
 //! bounded(every sequence of at most 4 transactions over {V = the Mary fixture mary2.tx, a pool registration that changes the certificate
 //! state and is accepted once (a second V no longer preserves value and is rejected); X = the same transaction presented under the
 //! wrong era, always rejected}): validate_txs succeeds exactly when applying the transactions one at a time succeeds, and then leaves
-//! the same state; when it fails the caller's certificate state is what it was before the call. Exit 1 with the failing sequence if not.
+//! the same state; when it fails the caller's certificate state is what it was before the call. Second family: every sequence of <= 3
+//! over {P = mary3.tx, a stake registration then a delegation to an unregistered pool: rejected AFTER the rule has written; X}.
+//! Exit 1 with the failing sequence if not.
 #[path = "/repo/pallas-validate/tests/common.rs"]
 #[allow(dead_code, unused_imports)]
 mod common;
@@ -23,6 +25,18 @@ fn env() -> Environment {
     };
     Environment { prot_params: MultiEraProtocolParameters::Shelley(pparams), prot_magic: 764824073, block_slot: 5281340, network_id: 1,
         acnt: Some(AccountState { treasury: 261_254_564_000_000, reserves: 0 }) }
+}
+fn env3() -> Environment {
+    let pparams = ShelleyProtParams {
+        system_start: chrono::DateTime::parse_from_rfc3339("2017-09-23T21:44:51Z").unwrap(),
+        epoch_length: 432000, slot_length: 1, minfee_b: 155381, minfee_a: 44, max_block_body_size: 65536, max_transaction_size: 16384,
+        max_block_header_size: 1100, key_deposit: 2_000_000, pool_deposit: 500_000_000, maximum_epoch: 18, desired_number_of_stake_pools: 500,
+        pool_pledge_influence: RationalNumber { numerator: 3, denominator: 10 }, expansion_rate: RationalNumber { numerator: 3, denominator: 1000 },
+        treasury_growth_rate: RationalNumber { numerator: 2, denominator: 10 }, decentralization_constant: RationalNumber { numerator: 0, denominator: 1 },
+        extra_entropy: Nonce { variant: NonceVariant::NeutralNonce, hash: None }, protocol_version: (4, 0), min_utxo_value: 1_000_000, min_pool_cost: 340_000_000,
+    };
+    Environment { prot_params: MultiEraProtocolParameters::Shelley(pparams), prot_magic: 764824073, block_slot: 29_035_358, network_id: 1,
+        acnt: Some(AccountState { treasury: 374_930_989_230_000, reserves: 12_618_536_190_580_000 }) }
 }
 fn operator() -> PoolKeyhash { Hash::from_str("59EBE72AE96462018FBE04633100F90B3066688D85F00F3BD254707F").unwrap() }
 fn owner() -> StakeCredential { StakeCredential::AddrKeyhash(Hash::from_str("FB2B631DB76384F64DD94B47F97FC8C2A206764C17A1DE7DA2F70E83").unwrap()) }
@@ -80,6 +94,36 @@ fn main() {
                 }
                 (Some(_), Err(e)) => { println!("VIOLATED: sequence [{name}]: every transaction is accepted in turn, the sequence is rejected: {e:?}"); std::process::exit(1); }
                 (None, Ok(())) => { println!("VIOLATED: sequence [{name}] contains a transaction the LEDGER rule rejects in its turn, but validate_txs returned Ok"); std::process::exit(1); }
+            }
+        }
+    }
+    // second family: P = the Mary fixture mary3.tx (a stake registration followed by a delegation) against a state in which the target pool
+    // is NOT registered: the rule applies the registration to its working state and then rejects the delegation — a rejected transaction
+    // that has already written. Every sequence over {P, X} must fail and leave the caller's state exactly as it was.
+    let text3 = std::fs::read_to_string("/repo/test_data/mary3.tx").expect("fixture mary3.tx");
+    let cbor3 = cbor_to_bytes(&text3);
+    let mtx3: Tx = minted_tx_from_cbor(&cbor3);
+    let utxos3: UTxOs = mk_utxo_for_alonzo_compatible_tx(&mtx3.transaction_body, &[(
+        String::from("014faace6b1de3b825da7c7f4308917822049cdedb5868f7623f892d4e39cf0461807b986a6477205e376dac280d7f150eb497025f67c49757"),
+        Value::Coin(627_760_000), None)]);
+    let env3 = env3();
+    let partial = || MultiEraTx::from_alonzo_compatible(&mtx3, Era::Mary);
+    let wrong3 = || MultiEraTx::from_alonzo_compatible(&mtx3, Era::Alonzo);
+    { let mut s = CertState::default(); if validate_txs(&[partial()], &env3, &utxos3, &mut s).is_ok() { eprintln!("fixture P is not rejected on this tree"); std::process::exit(2); } }
+    let empty = |s: &CertState| s.pstate.pool_params.is_empty() && s.dstate.rewards.is_empty() && s.dstate.delegations.is_empty() && s.dstate.ptrs.is_empty();
+    for len in 1..=3usize {
+        for code in 0..(1u32 << len) {
+            let shape: Vec<bool> = (0..len).map(|i| code >> i & 1 == 1).collect();      // true = X
+            let seq: Vec<MultiEraTx> = shape.iter().map(|x| if *x { wrong3() } else { partial() }).collect();
+            let name: String = shape.iter().map(|x| if *x { 'X' } else { 'P' }).collect();
+            let mut s = CertState::default();
+            let r = validate_txs(&seq, &env3, &utxos3, &mut s);
+            n += 1;
+            if r.is_ok() { println!("VIOLATED: sequence [{name}] (P = a registration followed by a delegation to an unregistered pool) accepted"); std::process::exit(1); }
+            if !empty(&s) {
+                println!("VIOLATED: sequence [{name}] failed, yet the caller's certificate state changed (reward accounts: {}, pointers: {}, delegations: {}) — P's stake registration was committed although its delegation was rejected",
+                    s.dstate.rewards.len(), s.dstate.ptrs.len(), s.dstate.delegations.len());
+                std::process::exit(1);
             }
         }
     }
